@@ -42,6 +42,8 @@ type rigReq struct {
 	NilCtx  bool                `json:"nilCtx,omitempty"` // … and it refuses with a nil context
 	DenyStatus int              `json:"denyStatus,omitempty"` // … with this status (0: 403)
 	BodyType string             `json:"bodyType,omitempty"` // declared type of the JSON body when it is not Item (bookkeeping for the model)
+	Spread   bool               `json:"spread,omitempty"`   // the i-th scheme of Deny is refused with status DenyStatus+i
+	Chunked  bool               `json:"chunked,omitempty"`  // the body is sent without a Content-Length (chunked transfer)
 }
 
 type rigIn struct {
@@ -150,6 +152,11 @@ func rigAuthSrc(engine string) string {
 	case "fiber":
 		imp, ctxParam, hdr = `"github.com/gofiber/fiber/v2"`, "c *fiber.Ctx", `c.Get("X-Rig-Deny")`
 	}
+	abortStmt := ""
+	if engine == "gin" {
+		// a callback may abort the gin context when it refuses (a common idiom); the handler still must not go on
+		abortStmt = `if c.GetHeader("X-Rig-Abort") != "" { c.AbortWithStatus(status) }`
+	}
 	return fmt.Sprintf(`package auth%s
 
 import (
@@ -168,8 +175,12 @@ func GleeceRequestAuthorization(ctx context.Context, %s, check runtime.SecurityC
 	if n, err := strconv.Atoi(%s); err == nil && n > 0 {
 		status = n // the refusal's own status: the response must carry it
 	}
-	for _, d := range strings.Split(%s, ",") {
+	for i, d := range strings.Split(%s, ",") {
 		if d != "" && d == check.SchemaName {
+			if %s != "" {
+				status += i // every refused scheme answers with a status of its own: the response must carry the LAST refusal's
+			}
+			%s
 			if %s != "" {
 				return nil, &runtime.SecurityError{Message: "denied " + d, StatusCode: runtime.HttpStatusCode(status)} // a refusal need not carry a context
 			}
@@ -178,7 +189,7 @@ func GleeceRequestAuthorization(ctx context.Context, %s, check runtime.SecurityC
 	}
 	return ctx, nil
 }
-`, engine, imp, projModule, ctxParam, strings.Replace(hdr, "X-Rig-Deny", "X-Rig-Deny-Status", 1), hdr, strings.Replace(hdr, "X-Rig-Deny", "X-Rig-Nilctx", 1))
+`, engine, imp, projModule, ctxParam, strings.Replace(hdr, "X-Rig-Deny", "X-Rig-Deny-Status", 1), hdr, strings.Replace(hdr, "X-Rig-Deny", "X-Rig-Deny-Spread", 1), abortStmt, strings.Replace(hdr, "X-Rig-Deny", "X-Rig-Nilctx", 1))
 }
 
 const rigMainSrc = `package main
@@ -218,6 +229,8 @@ type req struct {
 	Deny    []string            ` + "`json:\"deny\"`" + `
 	NilCtx  bool                ` + "`json:\"nilCtx\"`" + `
 	DenyStatus int              ` + "`json:\"denyStatus\"`" + `
+	Spread  bool                ` + "`json:\"spread\"`" + `
+	Chunked bool                ` + "`json:\"chunked\"`" + `
 }
 
 type resp struct {
@@ -237,6 +250,9 @@ func build(r req) *http.Request {
 	} else if r.Body != "" {
 		body = strings.NewReader(r.Body)
 		ct = "application/json"
+		if r.Chunked {
+			body = struct{ io.Reader }{strings.NewReader(r.Body)} // no Len(): the request has no Content-Length
+		}
 	}
 	hr := httptest.NewRequest(r.Method, "http://rig.local"+r.Path, body)
 	if ct != "" {
@@ -250,6 +266,9 @@ func build(r req) *http.Request {
 	}
 	if r.NilCtx {
 		hr.Header.Set("X-Rig-Nilctx", "1")
+	}
+	if r.Spread {
+		hr.Header.Set("X-Rig-Deny-Spread", "1")
 	}
 	if r.DenyStatus != 0 {
 		hr.Header.Set("X-Rig-Deny-Status", fmt.Sprint(r.DenyStatus))
@@ -321,7 +340,11 @@ func main() {
 						st, b = -1, fmt.Sprint("panic: ", x)
 					}
 				}()
-				return serve[eng](build(r))
+				rr := r
+				if eng == "fiber" {
+					rr.Chunked = false // fiber's app.Test cannot replay a request of unknown length; fiber gets the same body with a length
+				}
+				return serve[eng](build(rr))
 			}()
 			if len(body) > 300 {
 				body = body[:300]
